@@ -483,7 +483,7 @@ pub fn property() -> Property {
                 name: "laws",
                 rule: "0-25 (thorough 60) steps of (gap 1 ms..10 days log-uniform, inc/set_position/tick/reset_eta/reset_elapsed/reset/set_length/finish) then 0-8 stall queries; at every instant: per_sec finite >= 0 and <= largest observed rate, eta == remaining/per_sec (0 when finished/no length/no progress), duration == elapsed + eta, per_sec ~ 0 after >= 1 h stall, per_sec non-increasing during the stall; non-trivial = >=3 updates with >=2 distinct gaps, or a reset/rewind",
                 strategy: laws_strategy,
-                cases: |t| t.pick(6_000, 300_000),
+                cases: |t| t.pick(6_000, 1_200_000),
                 run: run_laws,
                 signature: laws_signature,
                 essential: &["three_updates_two_gaps", "reset_or_rewind", "stall_queried", "rate_changed", "finished"],
@@ -494,7 +494,7 @@ pub fn property() -> Property {
                 name: "steady",
                 rule: "positions exactly rate*t for a rate of 1..2^40 steps/ms at 1-40 (thorough 200) irregular gaps of 1 ms..10 days: |per_sec - rate| <= 1e-9 rate after every update, and per_sec non-increasing over 0-8 stall queries; non-trivial = >=3 updates with >=2 distinct gaps",
                 strategy: steady_strategy,
-                cases: |t| t.pick(4_000, 200_000),
+                cases: |t| t.pick(4_000, 800_000),
                 run: run_steady,
                 signature: no_signature,
                 essential: &["irregular_cadence", "stall_queried", "long_gap"],
@@ -505,7 +505,7 @@ pub fn property() -> Property {
                 name: "indifference",
                 rule: "two bars created at the same instant get different pre-histories, are brought to the same position and pass reset_eta / reset_elapsed / reset / a common backwards seek, then an identical suffix: per_sec (bit-equal), eta and position must agree at every later instant; non-trivial = pre-histories differ and the suffix makes progress",
                 strategy: twin_strategy,
-                cases: |t| t.pick(5_000, 250_000),
+                cases: |t| t.pick(5_000, 1_000_000),
                 run: run_twin,
                 signature: no_signature,
                 essential: &["different_prehistories_then_progress", "rewind", "reset_all", "reset_eta"],
